@@ -983,6 +983,9 @@ import_from_arg:
 	}
 |	import_as_names optional_comma
 	{
+		if $2 {
+			yylex.(*yyLex).SyntaxError("trailing comma not allowed without surrounding parentheses")
+		}
 		$$ = $1
 	}
 
